@@ -680,6 +680,50 @@ func hsForge(ver string, e *Ev, cls, name string) *Ev {
 	return &Ev{PDU: back, ID: back.EventID(), JSON: back.JSON()}
 }
 
+// hsRelaySigned: the event really signed by `origin` (its own key, key ID ed25519:1), with one more entry in `signatures` that no
+// base64 reader decodes (a relay's PADDED signature).  Returns the event as the untrusted constructor reads it back and what the
+// library's own VerifyJSON makes of origin's signature over the redacted event: the verdict the scripted verifier then plays.
+// Whatever that verdict is, an accepted event must come back unmodified (all received signatures kept) - seeded change C15-r7m1.
+func hsRelaySigned(ver string, e *Ev, origin string) (*Ev, string) {
+	impl, err := gmsl.GetRoomVersion(gmsl.RoomVersion(ver))
+	if err != nil || e == nil || e.PDU == nil {
+		return nil, ""
+	}
+	key := hsKey(origin)
+	var signed gmsl.PDU
+	if r := Guard(func() string { signed = e.PDU.Sign(origin, "ed25519:1", key); return "" }); r != "" || signed == nil {
+		return nil, ""
+	}
+	var m map[string]json.RawMessage
+	if json.Unmarshal(signed.JSON(), &m) != nil {
+		return nil, ""
+	}
+	sigs := map[string]map[string]json.RawMessage{}
+	if json.Unmarshal(m["signatures"], &sigs) != nil {
+		return nil, ""
+	}
+	sigs["relay.example"] = map[string]json.RawMessage{"ed25519:r": json.RawMessage(`"QUJDRA=="`)}
+	m["signatures"], _ = json.Marshal(sigs)
+	raw, _ := json.Marshal(m)
+	cj, err := gmsl.CanonicalJSON(raw)
+	if err != nil {
+		return nil, ""
+	}
+	back, err := impl.NewEventFromUntrustedJSON(cj)
+	if err != nil || back == nil || back.EventID() != e.ID {
+		return nil, ""
+	}
+	red, err := impl.RedactEventJSON(back.JSON())
+	if err != nil {
+		return nil, ""
+	}
+	verdict := "bad"
+	if gmsl.VerifyJSON(origin, "ed25519:1", key.Public().(ed25519.PublicKey), red) == nil {
+		verdict = "good"
+	}
+	return &Ev{PDU: back, ID: back.EventID(), JSON: back.JSON()}, verdict
+}
+
 // hsFix pins parameters of a generated handshake op; with `happy` every other parameter stays on the accepting path.
 type hsFix struct {
 	ver, typ, forge string
@@ -691,6 +735,8 @@ type hsFix struct {
 	// next to the exact member, which carries another value).  Member names are exact: Membership(), the decode of
 	// MemberContent and the auth rules ignore the other spellings.
 	variant string
+	// relay: the event is really signed by the requesting server and carries an undecodable third-party signature
+	relay bool
 }
 
 // hsMemberVariants: the spellings used by the fixed prologues (before / after the exact name in the marshalled map)
@@ -744,6 +790,7 @@ func genSendJoinFixed(o *Out, r *Rng) {
 		}
 		// the user-ID querier knows no user for the sender and reports no error
 		genSendJoinFix(o, r, 1000, hsFix{ver: ver, happy: true, senderQ: "nil"})
+		genSendJoinFix(o, r, 1000, hsFix{ver: ver, happy: true, relay: true})
 	}
 }
 
@@ -870,6 +917,18 @@ func genSendJoinFix(o *Out, r *Rng, i int, fix hsFix) {
 		senderQ = fix.senderQ
 	}
 	verify := pickDev(r, p, "good", "bad", "err")
+	if (fix.relay || rare(4)) && ev != nil && cls == "o" && typ == spec.MRoomMember {
+		if f, verdict := hsRelaySigned(ever, ev, domainOf(sender)); f != nil {
+			ev, evArg, id = f, f.Arg(), f.ID
+			if reqID != "$different:hs2" {
+				reqID = id
+			}
+			if verify != "err" {
+				verify = verdict
+			}
+			o.Count("sendjoin.relay-padded-signature." + verdict)
+		}
+	}
 	pcur := 70
 	if fix.happy {
 		pcur = 100
